@@ -24,6 +24,13 @@ CLAUSES = {
     "direct:reset": "kept_until_acked",      # Session.Reset on a client that did not ask for a clean session
     "direct:resend": "resend_on_connect",    # CONNACK accepted but AllPackets(Outgoing) never asked for
     "direct:closed_means_quiet": "future_total",  # something of a client still runs after its Close/Disconnect returned
+    # the option sweep (go/cmd/client/cfgsweep.go): the documented meaning of a configuration value
+    "direct:config": "config_meaning",        # what Connect hands on / refuses, ValidateSubs, Logger
+    "direct:keepalive": "config_meaning",     # KeepAlive <= 0: no pinger; d > 0: PINGREQ after d of silence, give up after a further d
+    "direct:readlimit": "config_meaning",     # ReadLimit: exact size received, one byte more refused (error callback, futures cancelled, closed)
+    "direct:writedelay": "config_meaning",    # MaxWriteDelay: asynchronous packets on the wire within the delay, flushed in order by Disconnect
+    "direct:wait": "future_truthful",         # timeouts passed to a future's Wait (0 / negative: wait for the resolution)
+    "direct:cbapi": "future_total",           # a request issued from inside the application callback
     "direct:delivery": "future_total",
     "direct:ackheld": "future_total",
     "store_before_send": "store_before_send",
